@@ -142,6 +142,8 @@ pub struct Ctx {
     known: Known,
     /// set at first unknown violation: stop counting (proptest re-runs closures while shrinking)
     pub failed: AtomicBool,
+    /// violations reported (with their own VIOLATION lines and replay files) by child processes of this run
+    pub side_violations: std::sync::atomic::AtomicU64,
 }
 
 pub fn hash_of<T: Hash + ?Sized>(t: &T) -> u64 {
@@ -169,7 +171,14 @@ impl Ctx {
             }),
             known: Known::load(),
             failed: AtomicBool::new(false),
+            side_violations: std::sync::atomic::AtomicU64::new(0),
         }
+    }
+
+    /// A child process found (and printed) `n` violations: this run exits 1.
+    pub fn side_violation(&self, n: u64) {
+        self.side_violations.fetch_add(n, Ordering::SeqCst);
+        self.failed.store(true, Ordering::SeqCst);
     }
 
     pub fn has_failed(&self) -> bool {
@@ -408,7 +417,7 @@ impl Ctx {
             "coverage": J::Object(coverage),
             "assumptions": g.assumptions,
             "wall_s": (wall * 1000.0).round() / 1000.0,
-            "violations": g.violations.len(),
+            "violations": g.violations.len() as u64 + self.side_violations.load(Ordering::SeqCst),
         });
         if !self.replay_mode {
             let dir = format!("{}/evidence", VERIF_DIR);
@@ -427,10 +436,10 @@ impl Ctx {
             g.evaluations,
             g.nontrivial.len() as u64 + g.nontrivial_enum,
             g.known_hits.len(),
-            g.violations.len(),
+            g.violations.len() as u64 + self.side_violations.load(Ordering::SeqCst),
             wall
         );
-        if !g.violations.is_empty() {
+        if !g.violations.is_empty() || self.side_violations.load(Ordering::SeqCst) > 0 {
             1
         } else if !g.inconclusive.is_empty() && g.evaluations == 0 {
             for i in &g.inconclusive {
